@@ -14,7 +14,7 @@ Inductive keyfn :=
 | KStopNeg           (* lambda x: STOP if x < 0 else x % 3 *)
 | KConst (z : Z).
 
-Inductive agg := AFirst | AMax | AMin | ASum | ACount | AAvg | AFlatten | AMerge.
+Inductive agg := AFirst | AMax | AMin | ASum | ACount | AAvg | AFlatten | AMerge | ASumFrom (z : Z).   (* Sum(init=lambda: z) *)
 
 Inductive gspec :=
 | GDict (k : keyfn) (v : gspec)
@@ -66,6 +66,8 @@ Definition agg_step (a : agg) (st : option aggst) (x : val) : res (val * option 
                                | Some true => Ok (x, Some (SVal x)) | Some false => Ok (m, st) | None => Unmodelled "min" end
             | _ => Ok (x, Some (SVal x)) end
   | ASum => let cur := match st with Some (SVal m) => m | _ => VInt 0 end in
+            match iadd cur x with Ok r => Ok (r, Some (SVal r)) | Raise e => Raise e | Unmodelled u => Unmodelled u | OutOfFuel => OutOfFuel end
+  | ASumFrom z0 => let cur := match st with Some (SVal m) => m | _ => VInt z0 end in     (* the state is there or it is not: a total of 0 is a state *)
             match iadd cur x with Ok r => Ok (r, Some (SVal r)) | Raise e => Raise e | Unmodelled u => Unmodelled u | OutOfFuel => OutOfFuel end
   | ACount => let cur := match st with Some (SVal (VInt m)) => m | _ => 0%Z end in
               Ok (VInt (cur + 1), Some (SVal (VInt (cur + 1))))
